@@ -13,7 +13,7 @@ ON_NAMES = ["CALL", "SETATTR", "ALL"]
 
 #: class shapes
 SHAPES = ["plain", "slots", "dataclass", "namedtuple", "dbc", "dbc_sub_first", "dbc_sub_middle", "dbc_sub_last",
-          "dbc_sub_members", "plain_getattribute", "dbc_sub_noinit"]
+          "dbc_sub_members", "plain_getattribute", "dbc_sub_noinit", "dbc_sub_prop_setter"]
 
 #: operations on a constructed instance; (name, wrapped-by-CALL-invariants?)
 OPS = [("pub", True), ("_prot", False), ("__priv", False), ("__call__", True), ("__len__", True), ("__eq__", True),
@@ -150,6 +150,9 @@ class World:
                         w.h.constructing -= 1
                 init_sub.__name__ = "__init__"
                 sub_ns["__init__"] = init_sub
+            if shape == "dbc_sub_prop_setter":
+                # the subclass re-uses the inherited getter/deleter and supplies a new setter (``@Base.p.setter``)
+                sub_ns["p"] = base.__dict__["p"].setter(body("prop_set"))
             if shape in ("dbc_sub_members", "dbc_sub_noinit"):
                 sub_ns["pub"] = body("pub", 2)  # overridden
                 sub_ns["sub_new_method"] = body("sub_new_method", 3)  # added
@@ -228,7 +231,7 @@ def _ctor_bodies(w: World) -> List[Tuple[Any, ...]]:
     s = w.shape
     if s in ("dataclass", "namedtuple"):
         return []
-    if s == "dbc_sub_noinit":
+    if s in ("dbc_sub_noinit", "dbc_sub_prop_setter"):
         return [("body", "__init__"), ("body", "pub")]
     init = [("body", "__init__"), ("body", "pub")]
     sub_pub = ("body", "pub")
